@@ -3,6 +3,7 @@
 package resmgr
 
 import (
+	blncfg "github.com/containers/nri-plugins/pkg/apis/config/v1alpha1/resmgr/policy/balloons"
 	"testing"
 
 	"pgregory.net/rapid"
@@ -189,11 +190,56 @@ func c12ObserveBln(e *executor, r *stepResult, ri *runInfo) {
 	}
 }
 
+// c12PressureOps: a memory.preserve container with a memory limit and a
+// runtime-given multi-node memory set comes first, then ordinary containers
+// whose limits fill single nodes - the situation in which the allocator has
+// nothing left to move but the opted-out container's zone.
+func c12PressureOps(t *rapid.T, topo *vfkit.Topo) []hcOp {
+	nodes := topo.MemNodes().Sorted()
+	capa := topo.NodeCapacityBytes(nodes[0])
+	for _, n := range nodes {
+		if c := topo.NodeCapacityBytes(n); c < capa {
+			capa = c
+		}
+	}
+	mems := vfkit.NewIDSet(nodes[rapid.IntRange(0, len(nodes)-1).Draw(t, "pm0")])
+	mems.Add(nodes[rapid.IntRange(0, len(nodes)-1).Draw(t, "pm1")])
+	form := rapid.SampledFrom([]string{"bare", "pod", "container"}).Draw(t, "ooForm")
+	ops := []hcOp{
+		{Kind: "pod", Pod: &hcPodSpec{Namespace: "default", QoS: "burstable", Labels: map[string]string{"app": "web"},
+			Annotations: map[string]string{annKey("memory.preserve", form, "c0"): "true"}}},
+		{Kind: "create", A: 0, Ctr: &hcCtrSpec{Name: "c0", MilliCPU: 500, LimitCPU: 1000, Mems: mems.String(),
+			MemLimit: capa / 100 * int64(rapid.SampledFrom([]int{40, 60, 90}).Draw(t, "pFrac"))}},
+	}
+	n := rapid.IntRange(3, 9).Draw(t, "nOrdinary")
+	for i := 0; i < n; i++ {
+		ops = append(ops, hcOp{Kind: "pod", Pod: &hcPodSpec{Namespace: rapid.SampledFrom([]string{"default", "prod", "dev"}).Draw(t, "ns"),
+			QoS: "guaranteed", Labels: map[string]string{"app": rapid.SampledFrom([]string{"web", "db", "batch"}).Draw(t, "app")}, Annotations: map[string]string{}}})
+		mc := int64(rapid.SampledFrom([]int{500, 1000, 1500, 2000}).Draw(t, "mcpu"))
+		ops = append(ops, hcOp{Kind: "create", A: i + 1, Ctr: &hcCtrSpec{Name: "c0", MilliCPU: mc, LimitCPU: mc,
+			MemLimit: capa / 100 * int64(rapid.SampledFrom([]int{30, 50, 70, 85}).Draw(t, "oFrac"))}})
+		if rapid.IntRange(0, 3).Draw(t, "stopOne") == 0 {
+			ops = append(ops, hcOp{Kind: "stop", A: rapid.IntRange(1, 9).Draw(t, "stopWhich")})
+		}
+	}
+	return ops
+}
+
 var c12Bln = &propTest{
 	prop: "C12", unit: "balloons-optouts",
 	gen: func(t *rapid.T) *hcCase {
-		return genBalloonsCase(t, genOpts{Policy: polBalloons, MinOps: 10, MaxOps: 40, Reconfig: true, OptOuts: true, MemPressure: true,
-			Topo: vfkit.TopoOpts{MaxCPUs: 32, SmallMem: true, MaxMemNodes: 8}})
+		o := genOpts{Policy: polBalloons, MinOps: 10, MaxOps: 40, Reconfig: true, OptOuts: true, MemPressure: true,
+			Topo: vfkit.TopoOpts{MaxCPUs: 32, SmallMem: true, MaxMemNodes: 8}}
+		c := genBalloonsCase(t, o)
+		if len(c.Topo.MemNodes().Sorted()) >= 3 && rapid.IntRange(0, 2).Draw(t, "pressureScenario") == 0 {
+			c.Ops = append(c12PressureOps(t, c.Topo), c.Ops[len(c.Ops)/2:]...)
+			// every ordinary container gets a balloon of its own, spread over the machine:
+			// their memory zones are then different single nodes
+			b := c.Config.Balloons
+			b.PinMemory, b.AllocatorTopologyBalancing = ptr(true), true
+			b.BalloonDefs = []*blncfg.BalloonDef{{Name: "spread", Namespaces: []string{"*"}, PreferNewBalloons: true, MaxCpus: 2, PreferSpreadingPods: true}}
+		}
+		return c
 	},
 	observe: c12ObserveBln,
 	setup:   c12SetupBln,
